@@ -34,7 +34,7 @@ CLAIMED = {
  "C19": ("Coq theorems over the proxy model (transparency, Close forwarding, fast path iff, bytes accounted = capped sum for every chunking, every sample delivered) + differential correspondence on scripted readers/writers + independent monitor",
          "Props/C19.v; 1500 scripted cases per quick run over all 16 shapes of wrapped value x ewma depth x total class.", "7 (C19)"),
  "C20": ("Coq theorems (largest fitting unit, printed digits = nearest decimal of the float, finite quotient for every int64, h/m/s exact below 60 h, estimators conserve time, positive samples always delivered) + differential correspondence with exact string prediction",
-         "Props/C20.v over SizeFmt.v (Flocq binary64); the extracted model predicts the exact output string for f/d/s/v verbs and the exact float handed to the moving average; other verbs are checked to read back.", "7 (C20)"),
+         "Props/C20.v over SizeFmt.v (Flocq binary64); the extracted model predicts the exact output string for f/d/s/v verbs and the exact float handed to the moving average; other verbs are checked to read back. The decorators built on those formatters but not driven by the fmt family (counters group, elapsed, average speed / ETA, spinner, name, conditional constructors, on-complete-or-on-abort) are exercised by the self-checking dec family: composition of the model-compared formatters, wall-clock readings bracketed, freezing after completion / abort observed across a unit boundary.", "7 (C20)"),
 }
 CLAIMED["C01"] = ("Coq progress theorem over the container/heap-manager acceptor (no reachable state inside a render cycle is wedged) and over the width-sync protocol (progress, 2n-step bound, never stuck) + select-shape obligations regenerated from the Go source by the translator + acceptance of hooked traces + hang detection on every scenario family and on the concurrent 'late' family + a proved model of the wait group Progress.Wait blocks on (no lost wake-up), tied to bar_wait_group.go by a differential family and by source-shape obligations",
   "Props/C01.v: cycle_progress / Flow invariant for every accepted trace, Sync.v progress theorems, GenChecks (every hand-over select has a done clause; service loops watch done). WaitGroup.v / WaitGroupProofs.v: whenever the count is zero after any sequence of Add / Done / Wait calls every Wait call made so far returns once the notified waiters have run, and a Wait returns only at count zero (family wg: returned waiters after every call; GenChecks.wait_group_as_modelled: critical sections, broadcast condition, re-check loop read from the source). The Go scheduler's fairness, sync.Mutex / sync.Cond and the container's sync.WaitGroup (pwg) are outside the model: hangs are decided by timeouts on every scenario (sequential, perturbed, fault-injected, concurrent API storms ended by Wait / Shutdown / cancel / Wait racing Add).",
